@@ -322,6 +322,86 @@ def server_partitions(cfg):
             pass
 
 
+OBJ_KINDS = ('buffer', 'audio', 'control')
+
+
+def objects_history(kind, hist, cid=0, logins=2):
+    """run a history of object-level operations (('new', size) / ('free', k): free the k-th object made, live or not)
+    on a fresh server; after every step the index ranges of the live objects must be pairwise disjoint"""
+    from sc3.synth import server as srv, bus as bus_, buffer as buf_
+    from sc3.base import netaddr as nad
+    _SRV_N[0] += 1
+    opt = srv.ServerOptions()
+    opt.max_logins = logins
+    s = srv.Server(f'vfo{_SRV_N[0]}', nad.NetAddr('127.0.0.1', 30000 + _SRV_N[0] % 20000), opt)
+    try:
+        s._set_client_id(cid)
+        objs = []       # [object, size, live]
+        for i, op in enumerate(hist):
+            if op[0] == 'new':
+                n = op[1]
+                if kind == 'buffer':
+                    o = buf_.Buffer.new_consecutive(n, 8, 1, s) if n > 1 else [buf_.Buffer(8, 1, s)]
+                    start = o[0].bufnum
+                    o = o[0] if n == 1 else o
+                else:
+                    o = (bus_.AudioBus if kind == 'audio' else bus_.ControlBus)(n, s)
+                    start = o.index
+                for q, qstart, qn, live in objs:
+                    if live and not (start + n <= qstart or qstart + qn <= start):
+                        return f'{kind} history {hist[:i + 1]}: the new object got [{start}, {start + n}) which overlaps ' \
+                               f'the live object at [{qstart}, {qstart + qn})'
+                objs.append([o, start, n, True])
+            else:
+                k = op[1]
+                if k >= len(objs):
+                    continue
+                o = objs[k][0]
+                if isinstance(o, list):
+                    if objs[k][3]:
+                        # consecutive buffers are freed as a group through the allocator (documented limitation)
+                        s._buffer_allocator.free(objs[k][1])
+                else:
+                    o.free()
+                objs[k][3] = False
+        return None
+    finally:
+        try:
+            srv.Server.all.discard(s)
+            srv.Server.named.pop(s.name, None)
+        except Exception:
+            pass
+
+
+def objects_scenario(ctx):
+    """histories of Buffer / AudioBus / ControlBus objects (new, free, free again, new ...) of bounded length on one
+    client: no object is handed an index that a live object still owns"""
+    kind = OBJ_KINDS[ctx.choose('kind', 3)]
+    cid = ctx.choose('cid', 2)
+    n = 4 + ctx.choose('len', 2)
+    hist = []
+    made = 0
+    for i in range(n):
+        if made == 0 or ctx.choose(f'op{i}', 2) == 0:
+            hist.append(('new', 1 + ctx.choose(f'size{i}', 2) if kind != 'buffer' else 1))
+            made += 1
+        else:
+            hist.append(('free', ctx.choose(f'k{i}', made)))
+    msg = objects_history(kind, hist, cid)
+    if msg:
+        raise Violation(msg, None, {'key': f'c16:objects:{kind}',
+                                    'replay': {'kind': 'objects', 'mode': 'nrt', 'okind': kind, 'hist': hist, 'cid': cid}})
+    ctx.obligations += 1
+    ctx.discharged += 1
+    ctx.note('objects')
+    return {'hist': hist}
+
+
+def job_objects(job):
+    st = explore(objects_scenario, max_paths=60000, timeout_ms=5000, stop_on_violation=True)
+    return st.as_dict()
+
+
 def job_server(job):
     st = explore(server_scenario, max_paths=20000, timeout_ms=5000, stop_on_violation=True)
     return st.as_dict()
@@ -330,6 +410,8 @@ def job_server(job):
 def replay(rec):
     if rec.get('kind') == 'server':
         return server_partitions(rec['cfg'])
+    if rec.get('kind') == 'objects':
+        return objects_history(rec['okind'], [tuple(x) for x in rec['hist']], rec['cid'])
     eng = _eng()
     if rec['kind'] == 'nodeid':
         al = eng.NodeIDAllocator(rec['user'], rec['init_temp'])
@@ -427,6 +509,9 @@ def main(tier, seed):
         ntr += r.get('transitions', 0)
     chk.states, chk.transitions = nst, ntr
     chk.require_notes('block_allocator_reach', ['alloc', 'free', 'double-free'])
+    for r in run_jobs('vf.props.c16', 'job_objects', [dict()], 'nrt'):
+        chk.add('object_histories', r)
+    chk.require_notes('object_histories', ['objects'])
     for r in run_jobs('vf.props.c16', 'job_server', [dict()], 'nrt'):
         chk.add('server_partitions', r)
     chk.require_notes('server_partitions', ['server'])
